@@ -707,6 +707,11 @@ fn gen_c18(ctx: &mut Ctx) {
     }
     cases.push((format!("QS.{}", a), enc(a, 9, &[1], true)));
     cases.push((format!("QS.{}", a), b"garbage\r\n".to_vec()));
+    // replies that merely begin like an in-progress report: two or more data bytes, another type, another case of hex
+    for (t, d) in [(4u8, vec![0x13u8, 0x00]), (4, vec![0x11, 0x13]), (4, vec![0x13; 16]), (5, vec![0x13]), (3, vec![0x11]), (4, vec![0x13, 0x11, 0x13])] {
+        cases.push((format!("QS.{}", a), enc(a, t, &d, true)));
+    }
+    cases.push((format!("RO.{}.SLP", a), enc(a, 4, &[0x11, 0x00], true)));
     // the same exchanges on a port whose transfers take real time (paced kinds and a few unpaced ones)
     let mut timed: Vec<(String, Vec<u8>, bool)> = cases.iter().map(|(m, t)| (m.clone(), t.clone(), false)).collect();
     for (m, tape) in &cases {
@@ -727,6 +732,16 @@ fn gen_c18(ctx: &mut Ctx) {
         } && (m.starts_with("QS.") || m.starts_with("HE.") || m.starts_with("RO."))) as u8;
         let want = format!("send={} recv={}", want_send, want_recv);
         ctx.monitor(res == want, "C18-pacing", &line, &format!("wanted [{}] got [{}]", want, res));
+    }
+    // a long busy period: several hundred in-progress reports in a row on one bus, every one of them paced; and a run of
+    // other reports, none of them paced.  (Takes n x 100 ms of real time: left out where FDX_SKIP_SLOW is set.)
+    if std::env::var("FDX_SKIP_SLOW").is_err() {
+        for (n, st, all) in [(if ctx.tier_thorough { 520usize } else { 260 }, "PSP", true), (40, "PLP", true), (300, "PLD", false)] {
+            let line = format!("TMS {} {}", n, st);
+            let res = ctx.case(line.clone(), true, "run-of-reports");
+            let want = if all { format!("n={} paced={} first-unpaced=-", n, n) } else { format!("n={} paced=0 first-unpaced=1", n) };
+            ctx.monitor(res == want, "C18-pacing", &line, &format!("wanted [{}] got [{}]", want, res));
+        }
     }
 }
 
